@@ -90,6 +90,8 @@ pub fn run_case(case: &Case, want_log: bool) -> RunResult {
     run_sim(tokio_seed, async {
         match engine_of(&case.prop) {
             "hist" => crate::hist::run(&mut cx).await,
+            "crash" => crate::crash::run(&mut cx).await,
+            "corrupt" => crate::corrupt::run(&mut cx).await,
             other => cx.harness_error = Some(format!("no engine {other} for {}", case.prop)),
         }
     });
@@ -97,7 +99,7 @@ pub fn run_case(case: &Case, want_log: bool) -> RunResult {
     interpose::stop();
     // Journal self-check: replaying the journal must reproduce the directory byte for byte,
     // otherwise some mutation bypassed the interposer and crash images would be wrong.
-    if cx.harness_error.is_none() && case.param("skip_selfcheck", 0) == 0 {
+    if cx.harness_error.is_none() && cx.case.param("skip_selfcheck", 0) == 0 {
         let j = interpose::journal_snapshot();
         let t = interpose::Tree::from_journal(&j);
         match interpose::Tree::from_dir(&root) {
@@ -168,5 +170,19 @@ pub fn engine_of(prop: &str) -> &'static str {
         "C15" => "fault",
         "C18" => "corrupt",
         _ => "none",
+    }
+}
+
+/// Announce that the next step may kill the process; `result` is what the supervisor reports
+/// for this run in that case. `None` withdraws the announcement.
+pub fn set_crumb(result: Option<&RunResult>) {
+    let path = format!("/dev/shm/rlsim.crumb.{}", std::process::id());
+    match result {
+        Some(r) => {
+            let _ = std::fs::write(&path, serde_json::to_vec(r).unwrap_or_default());
+        }
+        None => {
+            let _ = std::fs::remove_file(&path);
+        }
     }
 }
